@@ -59,6 +59,9 @@ type lockCfg struct {
 	Cons        func(*cmttypes.ConsensusParams)
 	Relayer     func(*relayertypes.GenesisState)
 	NRelayers   int
+	NNodes      int
+	Rotate      bool
+	StepOpts    func(*world.StepOpts)
 	Step        time.Duration
 	JumpTime    bool // occasional large block-time steps
 	TargetPunished bool // lock/unlock requests prefer jailed and tombstoned validators
@@ -170,7 +173,7 @@ func newLockHist(c *vc.Ctx, cfg lockCfg, idx int) (*lockHist, error) {
 	h := &lockHist{c: c, cfg: cfg, r: world.NewRand(c.Seed, "lockhist/"+cfg.Label, idx), unlocks: map[uint64]*unlockRec{}, claims: map[uint64]*claimRec{}, absentRun: map[int]int{}}
 	h.tokens = []common.Address{tokBTC, tokGOAT, tokX}
 	one := math.NewIntFromUint64(1e18)
-	w, err := world.New(world.Config{Seed: c.Seed, Label: fmt.Sprintf("%s-%d", cfg.Label, idx), NVals: cfg.NVals, Powers: cfg.Powers, Cons: cfg.Cons, Relayer: cfg.Relayer, NRelayers: cfg.NRelayers,
+	w, err := world.New(world.Config{Seed: c.Seed, Label: fmt.Sprintf("%s-%d", cfg.Label, idx), NVals: cfg.NVals, NNodes: cfg.NNodes, Powers: cfg.Powers, Cons: cfg.Cons, Relayer: cfg.Relayer, NRelayers: cfg.NRelayers,
 		Locking: func(g *lockingtypes.GenesisState) {
 			if cfg.MaxVals > 0 {
 				g.Params.MaxValidators = cfg.MaxVals
@@ -199,6 +202,7 @@ func newLockHist(c *vc.Ctx, cfg lockCfg, idx int) (*lockHist, error) {
 		ch.Step0 = cfg.Step
 	}
 	h.ch = ch
+	ch.Rotate = cfg.Rotate
 	for i := 0; i < cfg.NVals; i++ {
 		h.vals = append(h.vals, &hVal{Key: w.Vals[i], Addr: common.BytesToAddress(w.Vals[i].Cons), Created: true, Genesis: true})
 	}
@@ -501,7 +505,11 @@ func (h *lockHist) step() bool {
 		h.logf("ops=%v absent=%d dt=%s", o.Desc, len(o.Absent), o.Dt)
 	}
 	h.prevNext = h.ch.NextVals.Copy()
-	blk, err := h.ch.Step(world.StepOpts{Reqs: &o.Reqs, Absent: o.Absent, Evidence: o.Evidence, Dt: o.Dt})
+	so := world.StepOpts{Reqs: &o.Reqs, Absent: o.Absent, Evidence: o.Evidence, Dt: o.Dt}
+	if h.cfg.StepOpts != nil {
+		h.cfg.StepOpts(&so)
+	}
+	blk, err := h.ch.Step(so)
 	h.blk = blk
 	if err != nil {
 		var cr *world.ErrCrash
